@@ -7,7 +7,7 @@ sign / decrypt / bytes(key) / from_blob, the flags PrivKeyV4.protected / unlocke
 PARTIAL by nature: CPython heap residue of freed integers / bytearrays is not observable and not modelled."""
 import gc, hashlib, inspect, os, types, warnings
 
-from .common import Driver, DriverError, hx, unhx, hn, unhn, load_repo
+from .common import Driver, DriverError, hx, unhx, hn, unhn, outcome, load_repo
 from . import keys as keypool
 
 # ---------------------------------------------------------------- primitive oracle (no pgpy in here)
@@ -72,10 +72,10 @@ def make_oracles():
 
 # ---------------------------------------------------------------- pinned source text (nothing here goes through py2coq)
 PINNED = {
-    'PrivKey.encrypt_keyblob': 'e41ff31c90df',
+    'PrivKey.encrypt_keyblob': 'b02856ec5aa4',   # a3ce830: S2K specifier built on the side, installed with the ciphertext after _encrypt
     'PrivKey.decrypt_keyblob': '674c88df3519',
     'PrivKey.clear': '6511ffe3a463',
-    'PGPKey.unlock': 'd42388a5e251',
+    'PGPKey.unlock': 'a08e792702a5',             # e967622: entry loop and finally pass over key material that is not protected
     'PGPKey.protect': '9e6d18e357fc',
     'PrivKeyV4.unlocked': '01afa6232098',
     'String2Key.parse': 'ed2d36842df8',
@@ -85,6 +85,9 @@ PINNED = {
     'KeyAction.check_attributes': '5bc1ee5f304f',
     'String2Key.__bytearray__': 'cda9d3f32607',
     'PrivKey.__bytearray__': '32da223c6d96',
+    'String2Key._experimental_bytearray': '8cdd6a4d556b',   # 05bf06b: serial length octet whenever the extension is 2 (s2k_emit_gnu)
+    'String2Key._experimental_parse': '5b6bfe665624',
+    'PGPKey.add_subkey': 'ba2057f19970',         # OAddSub: the subkey is attached before self.bind may refuse
 }
 
 
@@ -98,7 +101,9 @@ def source_digests():
             'PrivKeyV4.unlocked': PrivKeyV4.unlocked.fget, 'String2Key.parse': String2Key.parse,
             'PrivKeyV4.protected': PrivKeyV4.protected.fget, 'PGPKey.is_unlocked': PGPKey.is_unlocked.fget,
             'PGPKey.is_protected': PGPKey.is_protected.fget, 'KeyAction.check_attributes': KeyAction.check_attributes,
-            'String2Key.__bytearray__': String2Key.__bytearray__, 'PrivKey.__bytearray__': PrivKey.__bytearray__}
+            'String2Key.__bytearray__': String2Key.__bytearray__, 'PrivKey.__bytearray__': PrivKey.__bytearray__,
+            'String2Key._experimental_bytearray': String2Key._experimental_bytearray,
+            'String2Key._experimental_parse': String2Key._experimental_parse, 'PGPKey.add_subkey': PGPKey.add_subkey}
     out = {}
     for n, o in objs.items():
         o = getattr(o, '__wrapped__', o)
@@ -197,19 +202,36 @@ def graph_secrets(root, secrets):
 
 # ---------------------------------------------------------------- one history on implementation and model
 class Hist:
-    def __init__(self, ctx, d, pgpy, keyname, suite):
+    def __init__(self, ctx, d, pgpy, keyname, suite, extra=None):
         self.ctx, self.d, self.pgpy, self.keyname, self.suite = ctx, d, pgpy, keyname, suite
+        self.extra = dict(extra or {})      # goes into every recorded case (e.g. which replay route rebuilds the starting key)
         from pgpy.errors import PGPError, PGPDecryptionError
         self.PGPError, self.PGPDecryptionError = PGPError, PGPDecryptionError
 
-    def run(self, ops, key=None):
-        """ops: list of dicts {'op': 'P'|'E'|'X'|'R'|'S'|'D'|'O'|'I', ...}; returns True if everything agreed"""
-        from pgpy.constants import SymmetricKeyAlgorithm, HashAlgorithm
+    def run(self, ops, key=None, orig=None):
+        """guarded: an exception the implementation raises where the harness does not expect one is a recorded failing case"""
+        try:
+            return self._run(ops, key, orig)
+        except DriverError as ex:
+            # the extracted model could not digest what the implementation produced (e.g. an export that is not a packet sequence)
+            self.ctx.fail(self.suite, 'history: the model driver could not process what the implementation produced',
+                          dict(self.extra, key=self.keyname, ops=ops, error=repr(ex)[:300]))
+            return False
+        except Exception as ex:
+            self.ctx.fail(self.suite, 'history: the implementation raised %s where none is expected' % type(ex).__name__,
+                          dict(self.extra, key=self.keyname, ops=ops, error=repr(ex)[:300]))
+            return False
+
+    def _run(self, ops, key=None, orig=None):
+        """ops: list of dicts {'op': 'P'|'E'|'X'|'R'|'S'|'D'|'O'|'I'|'A', ...}; returns True if everything agreed"""
+        from pgpy.constants import SymmetricKeyAlgorithm, HashAlgorithm, PubKeyAlgorithm, EllipticCurveOID, KeyFlags
         pgpy, ctx = self.pgpy, self.ctx
         if key is None:
             key = keypool.get(self.keyname)
         start = bytes(key)
-        orig = [secret_ints(pk) for pk in pkts(key)]
+        if orig is None:        # (a key handed in locked comes with the secret integers it was made from)
+            orig = [secret_ints(pk) for pk in pkts(key)]
+        orig = [list(l) for l in orig]
         allsecrets = [v for l in orig for v in l]
         with warnings.catch_warnings():
             warnings.simplefilter('ignore')
@@ -219,7 +241,7 @@ class Hist:
                 dec_index = [i for i, pk in enumerate(pkts(key)) if pk.fingerprint.keyid in enc.encrypters][0]
             except Exception:
                 enc, dec_index = None, None
-        case = {'key': self.keyname, 'ops': ops}
+        case = dict(self.extra, key=self.keyname, ops=ops)
         impl, mops, stack, current_pw = [], [], [], None
         ok = True
         for o in ops:
@@ -232,6 +254,7 @@ class Hist:
                     h = HashAlgorithm(o['halg'])
                     old = h._tuned_count
                     h._tuned_count = o['count']
+                    before = outcome(lambda: (bytes(key), flags_of(key)))
                     try:
                         with Draws() as dr:
                             try:
@@ -241,6 +264,14 @@ class Hist:
                                 obs = 'raised2'
                     finally:
                         h._tuned_count = old
+                    if obs in ('raised2', 'warned'):
+                        # a refused protect (cipher PGPy cannot encrypt with) and a protect on a locked key leave the key as it was:
+                        # same export octets, same flags (that the old passphrase still opens it is followed by the later E steps)
+                        after = outcome(lambda: (bytes(key), flags_of(key)))
+                        if after != before:
+                            ctx.fail(self.suite, 'a protect that was refused (%s) changed the key (export octets / flags)' % obs,
+                                     dict(case, step=len(impl), before=repr(before)[:200], after=repr(after)[:200]))
+                            ok = False
                     rnd = ':'.join(hx(v) for v in dr.vals) or '-'
                     mops.append('P,%s,%s,%s,%s,%s' % (hx(pw_octets(pw)), hn(o['alg']), hn(o['halg']), hn(o['count']), rnd))
                     if obs == 'done':
@@ -302,6 +333,31 @@ class Hist:
                     obs = 'exported:' + ','.join(hx(secret_part(pk)) for pk in pkts(key))
                     extra = exported
                     mops.append('O')
+                elif kind == 'A':
+                    # add_subkey with a freshly generated, unprotected subkey (inside or outside an unlock scope)
+                    try:
+                        if o.get('alg') == 'eddsa':
+                            sub = pgpy.PGPKey.new(PubKeyAlgorithm.EdDSA, EllipticCurveOID.Ed25519)
+                            usage = {KeyFlags.Sign}
+                        else:
+                            sub = pgpy.PGPKey.new(PubKeyAlgorithm.ECDH, EllipticCurveOID.Curve25519)
+                            usage = {KeyFlags.EncryptCommunications, KeyFlags.EncryptStorage}
+                        sub_ints = [int(getattr(sub._key.keymaterial, f)) for f in sub._key.keymaterial.__privfields__]
+                        sub_chk = bytes(sub._key.keymaterial.chksum)
+                    except Exception as ex:
+                        ctx.fail(self.suite, 'harness: could not generate a subkey: %r' % ex, case)
+                        return False
+                    try:
+                        key.add_subkey(sub, usage=usage)
+                        obs = 'done'
+                    except self.PGPError as ex:
+                        obs = 'refused' if 'is_unlocked' in str(ex) else 'failed'
+                    except Exception:
+                        obs = 'failed'
+                    if len(pkts(key)) == len(orig) + 1:          # attached (PGPy attaches before the binding signature is made)
+                        orig.append(sub_ints)
+                        allsecrets.extend(sub_ints)
+                    mops.append('A,%s,%s' % (':'.join(hn(v) for v in sub_ints) or '-', hx(sub_chk)))
                 elif kind == 'I':
                     for cm in reversed(stack):   # the old object is dropped; leave its scopes first (not part of the model)
                         try:
@@ -341,15 +397,24 @@ class Hist:
                                  dict(case, reader=[p['kind'] + ':' + str(p.get('res')) for p in got]))
                         ok = False
             if (kind in ('X', 'R') and obs == 'done') or obs in ('raised1', 'raised2') and kind == 'E':
-                # scope ended (normally / by exception / failed enter): object graph must hold no secret integer
-                if all(prot):
-                    hits, n = graph_secrets(key, allsecrets)
+                # a scope ended (normally / by exception) or entering failed: no secret integer of a PROTECTED packet
+                # may be reachable from the object graph (key material that is not protected legitimately stays: e967622)
+                if prot and prot[0]:
+                    psecrets = [v for i, l in enumerate(orig) if i < len(prot) and prot[i] for v in l]
+                    hits, n = graph_secrets(key, psecrets)
                     if hits:
-                        ctx.fail(self.suite, 'secret integer reachable from the key object after the unlock scope ended',
+                        ctx.fail(self.suite, 'secret integer of a protected packet reachable from the key object after the unlock scope ended',
                                  dict(case, hits=hits[:4]))
                         ok = False
                     if key.is_unlocked:
                         ctx.fail(self.suite, 'key still unlocked after the unlock scope ended', case)
+                        ok = False
+            if kind in ('X', 'R', 'E', 'S', 'D', 'O'):
+                # key material that is not protected is never touched by entering / leaving a scope or by using the key (e967622)
+                for i, pk in enumerate(pkts(key)):
+                    if i < len(orig) and not prot[i] and secret_ints(pk) != orig[i]:
+                        ctx.fail(self.suite, 'secret integers of a packet that is not protected changed (step %s)' % kind,
+                                 dict(case, packet=i, step=len(impl) - 1))
                         ok = False
         for cm in reversed(stack):
             try:
@@ -387,6 +452,18 @@ class Hist:
         return ok
 
 
+def guarded(ctx, suite, case, fn, *a):
+    """run one check; an exception the implementation raises where the check does not expect one becomes a recorded failing case"""
+    try:
+        return fn(*a)
+    except DriverError as ex:
+        ctx.fail(suite, 'the model driver could not process what the implementation produced', dict(case, error=repr(ex)[:300]))
+        return False
+    except Exception as ex:
+        ctx.fail(suite, 'the implementation raised %s where none is expected' % type(ex).__name__, dict(case, error=repr(ex)[:300]))
+        return False
+
+
 def parse_read(ans):
     """readkey answer -> list of dicts"""
     out = []
@@ -419,6 +496,7 @@ def parse_read(ans):
 
 # ---------------------------------------------------------------- generators
 CIPHERS = [2, 3, 4, 7, 8, 9, 11, 12, 13]
+REFUSED = [0, 1, 10]     # Plaintext (no cipher), IDEA (insecure: decrypt only), Twofish256 (no backend): protect raises, key unchanged
 S2KHASHES = [1, 2, 3, 8, 9, 10, 11]
 
 
@@ -434,8 +512,11 @@ def gen_history(rng, pws, has_dec, length, count_choices):
         r = rng.random()
         if r < 0.18:
             pw = rng.choice(pws)
-            ops.append({'op': 'P', 'pw': pw_json(pw), 'alg': rng.choice(CIPHERS), 'halg': rng.choice(S2KHASHES),
+            alg = rng.choice(CIPHERS) if rng.random() < 0.85 else rng.choice(REFUSED)
+            ops.append({'op': 'P', 'pw': pw_json(pw), 'alg': alg, 'halg': rng.choice(S2KHASHES),
                         'count': rng.choice(count_choices)})
+            if alg in REFUSED:
+                continue
             cur_candidate = pw
             # protect takes effect unless the key is locked; the model decides, the generator only tracks candidates
             cur = cur_candidate if cur is None or rng.random() < 0.7 else cur
@@ -451,8 +532,10 @@ def gen_history(rng, pws, has_dec, length, count_choices):
             ops.append({'op': 'S'})
         elif r < 0.86 and has_dec:
             ops.append({'op': 'D'})
-        elif r < 0.94:
+        elif r < 0.93:
             ops.append({'op': 'O'})
+        elif r < 0.96 and sum(1 for o in ops if o['op'] == 'A') < 2:
+            ops.append({'op': 'A', 'alg': rng.choice(['ecdh', 'eddsa'])})
         else:
             ops.append({'op': 'I'})
     return ops
@@ -462,6 +545,7 @@ def scripted_histories(pw, bad, alg, halg, count, has_dec):
     P = {'op': 'P', 'pw': pw_json(pw), 'alg': alg, 'halg': halg, 'count': count}
     E, B, X, R, S, O, I = ({'op': 'E', 'pw': pw_json(pw)}, {'op': 'E', 'pw': pw_json(bad)}, {'op': 'X'}, {'op': 'R'}, {'op': 'S'},
                            {'op': 'O'}, {'op': 'I'})
+    A = {'op': 'A', 'alg': 'ecdh'}
     D = {'op': 'D'} if has_dec else S
     return [
         [S, D, O, P, O, S, D, E, S, D, O, X, S, D, O],                 # the statement of C06 in one run
@@ -469,6 +553,15 @@ def scripted_histories(pw, bad, alg, halg, count, has_dec):
         [P, E, E, X, S, X, B, E, B, S, X],                             # nested scopes, failed enter inside a scope
         [E, S, X, P, P, E, dict(P, pw=pw_json(bad)), S, X, B, E, O, dict(E, pw=pw_json(bad)), S, X],   # re-protect inside the scope
         [P, I, O, E, D, R, D, I, S, E, O, X],
+        # e967622: a subkey attached inside the unlock scope of a protected key keeps its secret after the scope (and after a
+        # second scope, an exception, a failed enter, a re-import); attaching to a locked key is refused
+        [P, O, E, A, O, S, X, O, S, E, D, R, O, B, O, I, E, O, X, O],
+        [P, A, E, dict(A, alg='eddsa'), X, O, E, S, A, R, O, I, O],
+        [A, O, P, O, E, A, X, O],                                      # unprotected key: attach, then protect everything
+        # a3ce830: a refused protect (Plaintext / IDEA / Twofish256) leaves export and passphrase unchanged -- on an unprotected
+        # key, on a locked key (warned before the cipher is looked at), and as a re-protect of an unlocked protected key
+        [O, dict(P, alg=1), O, dict(P, alg=0), O, S, dict(P, alg=10), O, P, O, dict(P, alg=1), O, E, O, dict(P, alg=1, pw=pw_json(bad)), O, S,
+         dict(P, alg=0, pw=pw_json(bad)), O, dict(P, alg=10, pw=pw_json(bad)), D, X, O, B, E, S, X, I, E, S, X],
     ]
 
 
@@ -485,6 +578,8 @@ def run(ctx):
 
 def _run(ctx, d, pgpy):
     rng = ctx.rng
+    import time
+    t0, lap = time.time(), {}
     # ---- 0. pinned source text
     dig = source_digests()
     for n, want in PINNED.items():
@@ -496,8 +591,6 @@ def _run(ctx, d, pgpy):
     for n in wanted:
         if n not in names:
             ctx.skipped.append('key %s cannot be built with the local OpenSSL' % n)
-    ctx.skipped.append('protection ciphers IDEA (PGPy refuses to encrypt with it) and Twofish (no backend): protect raises; that error path '
-                       '(it leaves usage=254 with empty ciphertext behind) is not part of the histories')
     ctx.skipped.append('ElGamal secret keys: PGPy cannot generate them and the pool has none (layout x is covered by the theorems only)')
     pws = passphrases(rng)
     has_dec = {n: any(s[2] == 'enc' for s in keypool.SPECS[n][2]) for n in names}
@@ -521,16 +614,22 @@ def _run(ctx, d, pgpy):
 
     ctx.exhaustive.append('every protection cipher PGPy supports (9) and every S2K hash (7) at least once' if ctx.quick else
                           'all 63 protection cipher x S2K hash combinations')
-    ctx.exhaustive.append('foreign forms: usage {254, 255} x S2K {simple, salted, iterated} on every pool key (usage 255 not on DSA), GNU stubs ext 1 / 2')
+    ctx.exhaustive.append('foreign forms: usage {254, 255} x S2K {simple, salted, iterated} on every pool key (DSA included), GNU stubs ext 1 / 2 '
+                          '(serial of 0, 3, 16 octets)')
+    ctx.exhaustive.append('refused protection ciphers {Plaintext, IDEA, Twofish256} x {unprotected, locked, unlocked protected} key state, on every key')
 
+    lap['protect-layout'] = time.time() - t0; t0 = time.time()
     # ---- 2. histories: scripted + random
     suite = 'histories'
     for n in names:
         for k, ops in enumerate(scripted_histories(pws[2], 'not the passphrase', 9, 8, 96, has_dec[n])):
+            if ctx.quick and k >= 5 and (k + names.index(n)) % 2:
+                continue       # quick tier: the add_subkey / refused-protect scripts run on every other key (thorough: on all)
             Hist(ctx, d, pgpy, n, suite).run(ops)
             ctx.case(suite, (n, 'scripted', k), sample={'key': n, 'ops': ''.join(o['op'] for o in ops)})
     # the extracted model works on unary-free but inductive Z: an RSA-2048 export costs it ~0.15 s, so the quick tier
     # takes RSA for one random history in eight (all scripted histories above run on every key)
+    lap['scripted'] = time.time() - t0; t0 = time.time()
     rot = names if not ctx.quick else [n for n in names if not n.startswith('rsa')] * 2 + names
     for j in range(ctx.n(40, 600)):
         n = rot[j % len(rot)]
@@ -538,11 +637,15 @@ def _run(ctx, d, pgpy):
         Hist(ctx, d, pgpy, n, suite).run(ops)
         ctx.case(suite, (n, repr(ops)), sample={'key': n, 'ops': ''.join(o['op'] for o in ops)})
 
+    lap['random'] = time.time() - t0; t0 = time.time()
     # ---- 3. foreign forms written by the model, read by PGPy
     foreign(ctx, d, pgpy, names, pws)
+    lap['foreign'] = time.time() - t0; t0 = time.time()
 
-    # ---- 4. mixed keys: unprotected subkey under a protected primary (enter raises TypeError, finally clears everything)
+    # ---- 4. mixed keys: unprotected subkeys under a protected primary (since e967622: unlock passes over them, on entry and on exit)
     mixed(ctx, d, pgpy, pws)
+    lap['mixed'] = time.time() - t0
+    ctx.notes.append('harness seconds: ' + ', '.join('%s %.1f' % kv for kv in lap.items()))
     if not ctx.quick:
         try:
             gpg_crosscheck(ctx, d, pgpy, names, pws)
@@ -550,8 +653,8 @@ def _run(ctx, d, pgpy):
             ctx.notes.append('gpg cross-check could not run: %r' % ex)
     ctx.notes.append('partial: CPython heap residue of freed integers / bytearrays is outside the model and unobservable here; '
                      'checked instead: no secret integer or its octets reachable from the key object graph after every scope exit')
-    ctx.notes.append('usage-255 foreign forms are restricted to RSA / ECDSA / EdDSA / ECDH: DSA / ElGamal usage 255 is the C08-class '
-                     'finding (encbytes aliasing) and is not chased here')
+    ctx.notes.append('usage-255 foreign forms include DSA since repair 7c47922 (the two-octet checksum stays inside the ciphertext); '
+                     'ElGamal secret keys cannot be generated here (same parse code as DSA)')
     ctx.notes.append('oracle calls answered by cryptography/hashlib: %d' % d.oracle_calls)
 
 
@@ -562,8 +665,6 @@ def foreign(ctx, d, pgpy, names, pws):
     cases = []
     for n in names:
         for (u, sp) in forms:
-            if u == 255 and n.startswith('dsa'):
-                continue
             cases.append((n, u, sp))
     reps = ctx.n(1, 6)
     for rep in range(reps):
@@ -580,7 +681,7 @@ def foreign(ctx, d, pgpy, names, pws):
                 iv = bytes(rng.randrange(256) for _ in range(BLOCK[a]))
                 fs.append('S,%s,%s,%s,%s,%s,%s,%s,%s' % (hn(u), hn(a), hn(sp), hn(h), hx(salt), hn(count if sp == 3 else 0), hx(iv), hx(pw_octets(pw))))
             case = {'suite': 'foreign', 'key': n, 'usage': u, 'spec': sp, 'cipher': a, 'hash': h, 'count': count, 'pw': pw_json(pw), 'forms': fs}
-            check_foreign(ctx, d, pgpy, suite, case, plain, orig)
+            guarded(ctx, suite, case, check_foreign, ctx, d, pgpy, suite, case, plain, orig)
             ctx.case(suite, (n, u, sp, a, h, count, repr(pw)), sample={k: case[k] for k in ('key', 'usage', 'spec', 'cipher', 'hash', 'count')})
     # simple S2K with an empty passphrase (hash of the empty string; the F6 repair)
     for n, u, pw in (('ed25519', 254, ''), ('rsa2048', 255, b''), ('p256', 254, b'')):
@@ -592,16 +693,16 @@ def foreign(ctx, d, pgpy, names, pws):
         a, h = rng.choice(CIPHERS), rng.choice(S2KHASHES)
         fs = ['S,%s,%s,0,%s,-,0,%s,-' % (hn(u), hn(a), hn(h), hx(bytes(rng.randrange(256) for _ in range(BLOCK[a])))) for _ in orig]
         case = {'suite': 'foreign', 'key': n, 'usage': u, 'spec': 0, 'cipher': a, 'hash': h, 'count': 0, 'pw': pw_json(pw), 'forms': fs}
-        check_foreign(ctx, d, pgpy, suite, case, plain, orig)
+        guarded(ctx, suite, case, check_foreign, ctx, d, pgpy, suite, case, plain, orig)
         ctx.case(suite, (n, u, 0, 'empty'), sample={k: case[k] for k in ('key', 'usage', 'spec', 'cipher', 'hash', 'pw')})
     # GNU dummy / smartcard stubs
     for n in names:
-        for ext, serial in ((1, b''), (2, bytes(range(16))), (2, b'\x01\x02\x03')):
+        for ext, serial in ((1, b''), (2, bytes(range(16))), (2, b'\x01\x02\x03'), (2, b'')):
             key = keypool.get(n)
             plain = bytes(key)
             fs = ['G,%s,%s,%s' % (hn(254 if ext == 1 else 255), hn(ext), hx(serial)) for _ in pkts(key)]
             case = {'suite': 'gnu', 'key': n, 'ext': ext, 'serial': serial.hex(), 'forms': fs}
-            check_gnu(ctx, d, pgpy, 'foreign-gnu-dummy', case, plain)
+            guarded(ctx, 'foreign-gnu-dummy', case, check_gnu, ctx, d, pgpy, 'foreign-gnu-dummy', case, plain)
             ctx.case('foreign-gnu-dummy', (n, ext, serial), sample=case)
 
 
@@ -767,7 +868,8 @@ def check_gnu(ctx, d, pgpy, suite, case, plain):
 
 
 def mixed(ctx, d, pgpy, pws, only=None):
-    """primary protected, one subkey not: PGPKey.unlock raises TypeError from the subkey and the finally block clears everything"""
+    """primary protected, subkeys not (written by the model): since e967622 PGPKey.unlock passes over the subkeys -- the key unlocks,
+    signs / decrypts, and leaving the scope (normally, by exception, by a failed enter) clears the primary only"""
     suite = 'mixed-protection'
     from pgpy.constants import SymmetricKeyAlgorithm, HashAlgorithm
     for n in ((only,) if only else ('ed25519', 'p256', 'rsa2048')):
@@ -786,10 +888,17 @@ def mixed(ctx, d, pgpy, pws, only=None):
             continue
         with warnings.catch_warnings():
             warnings.simplefilter('ignore')
-            k2 = pgpy.PGPKey.from_blob(unhx(out))[0]
-            hist = Hist(ctx, d, pgpy, n, suite)
-            ops = [{'op': 'O'}, {'op': 'E', 'pw': pw_json('pw')}, {'op': 'O'}, {'op': 'E', 'pw': pw_json('bad')}, {'op': 'X'}]
-            hist.run(ops, key=k2)
+            k2 = outcome(lambda: pgpy.PGPKey.from_blob(unhx(out))[0])
+            if k2[0] != 'ok':
+                ctx.fail(suite, 'PGPy cannot load a key with a protected primary and unprotected subkeys: %s' % k2[1], case)
+                continue
+            k2 = k2[1]
+            hist = Hist(ctx, d, pgpy, n, suite, extra={'suite': 'mixed'})
+            E, B, O, S, D, X, R = ({'op': 'E', 'pw': pw_json('pw')}, {'op': 'E', 'pw': pw_json('bad')}, {'op': 'O'}, {'op': 'S'}, {'op': 'D'},
+                                   {'op': 'X'}, {'op': 'R'})
+            ops = [O, S, D, E, O, S, D, B, S, X, O, S, D, E, S, R, O, B, O, X, {'op': 'A', 'alg': 'ecdh'}, E, {'op': 'A', 'alg': 'eddsa'}, O, X, O,
+                   {'op': 'I'}, O, E, S, X]
+            hist.run(ops, key=k2, orig=[secret_ints(pk) for pk in pkts(key)])
         ctx.case(suite, n, sample=case)
 
 
